@@ -45,4 +45,4 @@ class Determinism(SysTarget):
         return None
 
 
-TARGETS = {"codebasin.finder:ParserState.get_setmap": Determinism("determinism", ("multi", "dupes", "links", "mixed"), quick_n=4, thorough_n=60)}
+TARGETS = {"codebasin.finder:ParserState.get_setmap": Determinism("determinism", ("multi", "dupes", "links", "mixed", "linkinc", "redefine"), quick_n=4, thorough_n=60)}
